@@ -21,6 +21,7 @@ type autoInv struct {
 	n       ssa.Value // loop-invariant bound (nil: none)
 	isRange bool
 	it      IntTy
+	ord     int
 }
 
 func (x *Exec) findAutoInvs(fr *Frame, li *LoopInfo, entryVals map[*ssa.Phi]Value) []*autoInv {
@@ -74,7 +75,7 @@ func (x *Exec) findAutoInvs(fr *Frame, li *LoopInfo, entryVals map[*ssa.Phi]Valu
 		if !good || nEntry != 1 || step == nil {
 			continue
 		}
-		a := &autoInv{phi: phi, v0: ev.X, it: it}
+		a := &autoInv{phi: phi, v0: ev.X, it: it, ord: li.Ordinal}
 		switch {
 		case cond.X == ssa.Value(phi):
 			// classic
@@ -107,6 +108,10 @@ func (a *autoInv) term(x *Exec, fr *Frame, st *State) *Term {
 	m := x.m()
 	p := fr.env[a.phi].X
 	ge := m.cmp(token.GEQ, p, a.v0, a.it)
+	if it := fr.iter[a.ord]; it != nil && m == ModeInt {
+		// the counter is its start plus the number of completed iterations
+		ge = And(ge, Eq(p, iAdd(a.v0, it)))
+	}
 	if a.n == nil {
 		return ge
 	}
